@@ -661,7 +661,9 @@ class Manager:
             except KeyboardInterrupt:
                 self.stop()
             except SystemExit as e:
-                self.stop(e.code)
+                # run() raises the code after 'stopped' and the rest of the batch have been dispatched
+                with contextlib.suppress(SystemExit):
+                    self.stop(e.code)
             except BaseException:
                 value = err = _exc_info()
                 event.value.errors = True
@@ -890,7 +892,8 @@ class Manager:
         except KeyboardInterrupt:
             self.stop()
         except SystemExit as e:
-            self.stop(e.code)
+            with contextlib.suppress(SystemExit):
+                self.stop(e.code)
         except BaseException:
             self.unregisterTask((event, task, parent))
 
